@@ -487,6 +487,25 @@ class Proc:
             pass
 
 
+def _snapshot(stack):
+    """what is in a stack, lock directory aside: relative path -> content digest"""
+    import hashlib
+    out = {}
+    for dp, dn, fn in os.walk(stack):
+        if LOCKDIR in dn:
+            dn.remove(LOCKDIR)
+        for d in dn:
+            out[os.path.relpath(os.path.join(dp, d), stack) + "/"] = ""
+        for f in fn:
+            q = os.path.join(dp, f)
+            try:
+                with open(q, "rb") as fh:
+                    out[os.path.relpath(q, stack)] = hashlib.md5(fh.read()).hexdigest()
+            except OSError:
+                out[os.path.relpath(q, stack)] = "?"
+    return out
+
+
 def related(procs, i, j):
     return procs[i].get("lp") == j or procs[j].get("lp") == i
 
@@ -514,6 +533,7 @@ def run_schedule(case, phases=None):
     base = case.get("base", "default")
     if base == "abs":
         base = os.path.join(root, "locks")
+    snap0 = [_snapshot(st) for st in stacks] if multi and stacks and os.path.isdir(os.path.join(stacks[0], "ups_db")) else None
     specs = case["procs"]
     n = len(specs)
     paths = [list(sp.get("path", [0])) for sp in specs]
@@ -637,6 +657,7 @@ def run_schedule(case, phases=None):
         for d in range(nd):
             db = os.path.join(stacks[d], "ups_db")
             products.append(sorted(x for x in os.listdir(db) if os.path.isdir(os.path.join(db, x))) if os.path.isdir(db) else [])
+        changed = [a != _snapshot(st) for a, st in zip(snap0, stacks)] if snap0 is not None else None
         residue = listing[0] if not multi else listing
         if not any(listing):
             residue = []
@@ -644,7 +665,7 @@ def run_schedule(case, phases=None):
                 "violations": viols, "phase_steps": phase_steps,
                 "held": [p.held if p.nlocks is not None else None for p in procs],
                 "held_kinds": [getattr(p, "held_kinds", None) for p in procs],
-                "status": [p.status for p in procs], "products": products}
+                "status": [p.status for p in procs], "products": products, "stack_changed": changed}
     finally:
         for p in procs:
             if not p.ended:
